@@ -117,6 +117,9 @@ func (s *Scen) nextTag() uint64 { s.tag++; return s.tag<<16 | uint64(s.Rng.Intn(
 
 // Catalogue registers a transaction and names its leaves.
 func (s *Scen) Catalogue(p *mat.PoolTx) *mat.PoolTx {
+	if q, ok := s.ByID[p.ID]; ok {
+		return q // the same transaction built again (its id does not cover proofs): one name
+	}
 	p.Name = len(s.Txs) + 1
 	s.Txs = append(s.Txs, p)
 	s.ByID[p.ID] = p
